@@ -40,4 +40,13 @@ func VerifC17FieldKindsNoCrash() {
 		return // refusing a field with an error is fine
 	}
 	vAssert(vAllRefsResolve(sw), "the document refers to a definition it does not contain")
+	if asResponse && in != "body" {
+		// the struct declares a header only: the response has no body
+		resp, has := sw.Responses["listResponse"]
+		vAssert(has, "the response of the code is missing from the document")
+		if vKnown("C17-S12", has && resp.Schema != nil) {
+			return
+		}
+		vAssert(!has || resp.Schema == nil, "a response that declares only a header is given a body schema")
+	}
 }
